@@ -1,7 +1,7 @@
 (* C02 — linked instances converge on the shared device tree (partial: the point exchange is
    proved; the recursion of the catch-up is an executable model validated against two real
    linked instances on every run).  Statements only; proofs in Sync/Proofs.v. *)
-From Verif Require Import Base.Bytes Store.GraphCount Store.GraphWalk Store.Model Store.Check Store.ProofsRows Store.ProofsHash Store.ProofsTop Store.Concurrent Sync.Model Sync.Proofs Sync.ProofsEdge.
+From Verif Require Import Base.Bytes Store.GraphCount Store.GraphWalk Store.Model Store.Check Store.ProofsRows Store.ProofsHash Store.ProofsTop Store.Concurrent Sync.Model Sync.Proofs Sync.ProofsEdge Sync.Frame Sync.Converge.
 
 (* the two comparison loops of a catch-up pass: for any two row lists (one row per identity,
    normalised keys, a tie in time meaning the same point) both sides end up, for every identity,
@@ -89,6 +89,35 @@ Proof. vm_compute. reflexivity. Qed.
 
 Example C02_legacy_refuted : agree (catchup true 8 exD exU id_dev 0%Z) = false.
 Proof. vm_compute. reflexivity. Qed.
+
+(* THE RECURSION.  One catch-up pass (syncNode on the device, fuel S n for a tree of height n below it) over two
+   instances in good standing (wf, hash invariant, one row per identity) that hold the same tree below the
+   device (kids_ok / shape: one placement per node, the same children on both sides, disjoint subtrees) whose
+   points are numbers with timestamps that identify them (node_data / data), and whose compared hashes are
+   faithful — equal only over equal content (the hypothesis the finding below shows to be necessary):
+   afterwards the device and every node and edge below it carry, on BOTH sides, for every point identity, the
+   newer of the two points the sides held (njoined / joined: so the sides agree and nothing accepted on either
+   side is lost or reverted), nothing outside the device tree has changed (frame), and both stores are again
+   in good standing.  Node creations on one side only are outside this statement (sendNodesRemote / Local:
+   correspondence only); deletions are tombstone points and are covered. *)
+Theorem C02_recursion_converges :
+  forall dev now n D U nl nu,
+    good D -> good U -> real dev ->
+    parents (s_edges D) dev = [nl] -> parents (s_edges U) dev = [nu] -> edge_deleted nu = false ->
+    kids_ok (links D) (links U) dev ->
+    (forall c, In c (kids (links D) dev) -> shape dev n (links D) (links U) (s_root D) (s_root U) dev c) ->
+    node_data D U dev -> (forall c, In c (kids (links D) dev) -> data (links D) D U c) ->
+    (top_hash_of nl = top_hash_of nu ->
+       (forall t k, lookup (nrows D dev) t k = lookup (nrows U dev) t k) /\
+       forall c, In c (kids (links D) dev) -> sub_agree (links D) D U c) ->
+    (forall c, In c (kids (links D) dev) -> faithful (links D) D U c) ->
+    let DU := sync_node false (S n) D U dev str_root dev now in
+    njoined D U (fst DU) (snd DU) dev /\
+    (forall c, In c (kids (links D) dev) -> joined (links D) D U (fst DU) (snd DU) c) /\
+    frame (below (links D) dev) D (fst DU) /\ frame (below (links U) dev) U (snd DU) /\
+    good (fst DU) /\ good (snd DU).
+Proof. exact sync_converges. Qed.
+Print Assumptions C02_recursion_converges.
 
 (* What the hash short-cut of syncNode cannot see (recorded finding equal-hash-different-content).
    A catch-up pass on a node whose compared hashes are equal returns both stores unchanged whatever lies
